@@ -47,4 +47,20 @@ theorem unit_of_arg_arcsin {X Y Z k : ℝ} (h : X ^ 2 + Y ^ 2 + Z ^ 2 = 1) (hk :
       simp [hY]
     · field_simp
 
+
+/-- `|(X, Y)| cos(atan2(Y, X)) = X` and `|(X, Y)| sin(atan2(Y, X)) = Y`, for all reals (also at the origin). -/
+theorem norm_mul_cos_sin_arg (X Y : ℝ) :
+    √(X ^ 2 + Y ^ 2) * cos (Complex.arg ⟨X, Y⟩) = X ∧ √(X ^ 2 + Y ^ 2) * sin (Complex.arg ⟨X, Y⟩) = Y := by
+  have hn : ‖(⟨X, Y⟩ : ℂ)‖ = √(X ^ 2 + Y ^ 2) := by
+    rw [Complex.norm_def, Complex.normSq_mk]; congr 1; ring
+  by_cases h0 : (⟨X, Y⟩ : ℂ) = 0
+  · have hX : X = 0 := by simpa using congrArg Complex.re h0
+    have hY : Y = 0 := by simpa using congrArg Complex.im h0
+    simp [hX, hY]
+  · have hpos : √(X ^ 2 + Y ^ 2) ≠ 0 := by
+      rw [← hn]; exact norm_ne_zero_iff.mpr h0
+    constructor
+    · rw [Complex.cos_arg h0, hn]; field_simp
+    · rw [Complex.sin_arg, hn]; field_simp
+
 end Pymeeus.Lemmas.Sphere
